@@ -412,44 +412,76 @@ func (a Float) M__round__(digitsObj Object) (Object, error) {
 
 // Rich comparison
 
+// floatCompare compares a with other, which may be a float or an int
+//
+// An int is compared exactly, not through a conversion to float
+// which may round it or fail
+//
+// It returns ok false if other isn't a number.  lt, eq and gt are all
+// false if a or other is a NaN
+func floatCompare(a Float, other Object) (lt, eq, gt, ok bool) {
+	var i *big.Int
+	switch b := other.(type) {
+	case Int:
+		if b >= -(1<<float64precision) && b <= 1<<float64precision {
+			// converts exactly
+			return a < Float(b), a == Float(b), a > Float(b), true
+		}
+		i = big.NewInt(int64(b))
+	case *BigInt:
+		i = (*big.Int)(b)
+	default:
+		f, ok := convertToFloat(other)
+		return a < f, a == f, a > f, ok
+	}
+	switch {
+	case math.IsNaN(float64(a)):
+		return false, false, false, true
+	case math.IsInf(float64(a), 0):
+		return a < 0, false, a > 0, true
+	}
+	cmp := new(big.Float).SetFloat64(float64(a)).Cmp(new(big.Float).SetInt(i))
+	return cmp < 0, cmp == 0, cmp > 0, true
+}
+
 func (a Float) M__lt__(other Object) (Object, error) {
-	if b, ok := convertToFloat(other); ok {
-		return NewBool(a < b), nil
+	if lt, _, _, ok := floatCompare(a, other); ok {
+		return NewBool(lt), nil
 	}
 	return NotImplemented, nil
 }
 
 func (a Float) M__le__(other Object) (Object, error) {
-	if b, ok := convertToFloat(other); ok {
-		return NewBool(a <= b), nil
+	if lt, eq, _, ok := floatCompare(a, other); ok {
+		return NewBool(lt || eq), nil
 	}
 	return NotImplemented, nil
 }
 
 func (a Float) M__eq__(other Object) (Object, error) {
-	if b, ok := convertToFloat(other); ok {
-		return NewBool(a == b), nil
+	if _, eq, _, ok := floatCompare(a, other); ok {
+		return NewBool(eq), nil
 	}
 	return NotImplemented, nil
 }
 
 func (a Float) M__ne__(other Object) (Object, error) {
-	if b, ok := convertToFloat(other); ok {
-		return NewBool(a != b), nil
+	if _, eq, _, ok := floatCompare(a, other); ok {
+		return NewBool(!eq), nil
 	}
 	return NotImplemented, nil
 }
 
 func (a Float) M__gt__(other Object) (Object, error) {
-	if b, ok := convertToFloat(other); ok {
-		return NewBool(a > b), nil
+	if _, _, gt, ok := floatCompare(a, other); ok {
+		return NewBool(gt), nil
 	}
 	return NotImplemented, nil
 }
 
 func (a Float) M__ge__(other Object) (Object, error) {
-	if b, ok := convertToFloat(other); ok {
-		return NewBool(a >= b), nil
+	if _, eq, gt, ok := floatCompare(a, other); ok {
+		return NewBool(gt || eq), nil
 	}
 	return NotImplemented, nil
 }
